@@ -86,7 +86,15 @@ func (e *Engine) failStack(st *State) []string {
 func (e *Engine) assertObligation(st *State, c *Term, msg string) {
 	e.AssertQ++
 	if c.IsTrue() {
-		e.Trivial++
+		// folded to true by the term constructors: trivial only if no solver-decided branch led here
+		if len(st.pc) == 0 {
+			e.Trivial++
+		} else {
+			e.Folded++
+			if len(e.Samples) < 3 {
+				e.Samples = append(e.Samples, fmt.Sprintf("%s: holds by simplification on a path whose %d branch conditions the solver found feasible (all diverging outcomes were pruned as unsat)", msg, len(st.pc)))
+			}
+		}
 		return
 	}
 	for _, n := range e.openSigs(st) {
